@@ -27,12 +27,33 @@ pub struct Case {
     pub yacc: String,
     pub missing_from_lexer: Vec<String>,
     pub missing_from_parser: Vec<String>,
+    /// Some(name): the lexer declares start state `name` twice; the report must underline both
+    pub dup_state: Option<String>,
 }
 
 const NAMES: &[&str] = &["INT", "PLUS", "ÜBER", "LPAR", "RPAR", "IDENT", "Straße", "K_IF", "K2", "élan"];
 
 pub fn generate(seed: u64) -> Case {
     let mut r = Rng::new(seed ^ 0x6e70);
+    if r.chance(15) {
+        // a lexer that is rejected: the same start state declared twice, with blanks or tabs
+        // after the names on either line
+        let name = r.pick(&["STR", "CMT", "Q", "Zustand"]).to_string();
+        let trail = |r: &mut Rng| r.pick(&["", " ", "  ", " \t", "\t\t "]).to_string();
+        let mut lex = String::new();
+        for _ in 0..r.below(3) {
+            lex.push('\n');
+        }
+        let first = if r.chance(50) { format!("%x OTHER {name}{}\n", trail(&mut r)) } else { format!("%x   {name}{}\n", trail(&mut r)) };
+        lex.push_str(&first);
+        for _ in 0..r.below(3) {
+            lex.push('\n');
+        }
+        lex.push_str(&format!("%s {}{name}{}\n", if r.chance(50) { "  " } else { "" }, trail(&mut r)));
+        lex.push_str("%%\n[0-9]+ \"INT\"\n[ \\t\\n]+ ;\n");
+        let yacc = "%grmtools{yacckind: Original(YaccOriginalActionKind::GenericParseTree)}\n%start S\n%%\nS: \"INT\";\n".to_string();
+        return Case { lex, yacc, missing_from_lexer: vec![], missing_from_parser: vec![], dup_state: Some(name) };
+    }
     // which names the two files know
     let mut both = vec![];
     let mut only_l = vec![];
@@ -96,11 +117,18 @@ pub fn generate(seed: u64) -> Case {
     yacc.push_str("%start S\n");
     let ynames: Vec<&String> = both.iter().chain(only_y.iter()).collect();
     // some tokens are declared, all are used
+    let mut declared: Vec<&String> = vec![];
     for n in &ynames {
         if r.chance(40) {
             blank(&mut r, &mut yacc);
             yacc.push_str(&format!("%token \"{n}\"\n"));
+            declared.push(n);
         }
+    }
+    // a declared token named again in %avoid_insert, before the remaining tokens first appear
+    if !declared.is_empty() && r.chance(50) {
+        blank(&mut r, &mut yacc);
+        yacc.push_str(&format!("%avoid_insert \"{}\"\n", r.pick(&declared)));
     }
     blank(&mut r, &mut yacc);
     yacc.push_str("%%\n");
@@ -113,7 +141,7 @@ pub fn generate(seed: u64) -> Case {
         yacc.push_str(&format!("{}\"{n}\"", " ".repeat(1 + r.below(4) as usize)));
     }
     yacc.push_str(" ;\n");
-    Case { lex, yacc, missing_from_lexer: only_y, missing_from_parser: only_l }
+    Case { lex, yacc, missing_from_lexer: only_y, missing_from_parser: only_l, dup_state: None }
 }
 
 /// Run the binary; returns (class, detail) findings.
@@ -132,6 +160,7 @@ pub fn run_case(bin: &Path, case: &Case, dir: &Path) -> Result<Vec<(String, Stri
     }
     // walk the report
     let lines: Vec<&str> = err.lines().collect();
+    let dup_names: Vec<String> = case.dup_state.iter().cloned().collect();
     let mut cur: Option<(&str, &str, &Vec<String>)> = None; // (what, file text, names the block is about)
     let mut seen: Vec<(String, String)> = vec![]; // (block, token)
     let mut i = 0;
@@ -141,17 +170,24 @@ pub fn run_case(bin: &Path, case: &Case, dir: &Path) -> Result<Vec<(String, Stri
             cur = Some(("missing from lexer", &case.yacc, &case.missing_from_lexer));
         } else if l.contains("in the lexer in ") {
             cur = Some(("missing from parser", &case.lex, &case.missing_from_parser));
+        } else if case.dup_state.is_some() && l.contains("case.l") && !l.contains("| ") {
+            cur = Some(("duplicate start state", &case.lex, &dup_names));
         } else if let (Some((what, text, names)), Some((num, rest))) = (cur, l.split_once("| ")) {
-            if let Ok(n) = num.trim().parse::<usize>() {
-                if num.chars().all(|c| c.is_ascii_digit()) {
+            // nested messages are indented as a block: the same indent precedes the underline
+            let indent = num.chars().take_while(|c| *c == ' ').count();
+            let num = &num[indent..];
+            if let Ok(n) = num.parse::<usize>() {
+                if !num.is_empty() && num.chars().all(|c| c.is_ascii_digit()) {
                     let want = text.split('\n').nth(n - 1);
                     if want != Some(rest) {
                         findings.push(("nimbleparse-echoed-line".to_string(), format!("block '{what}': echoed line {n} is {:?}, line {n} of that file is {:?}; stderr {:?}", rest, want, err)));
                     } else if let Some(ul) = lines.get(i + 1) {
                         // the underline: spaces up to the column, then carets
+                        // a `...` gutter mark (rows not on consecutive lines) stands where blanks would
+                        let ul = &ul.replacen("...", "   ", 1);
                         let lead = ul.chars().take_while(|c| *c == ' ').count();
                         let carets = ul.chars().skip(lead).take_while(|c| *c == '^').count();
-                        let col = lead.saturating_sub(num.len() + 2);
+                        let col = lead.saturating_sub(indent + num.len() + 2);
                         let under: String = rest.chars().skip(col).take(carets).collect();
                         let tok = under.trim_matches('"').trim_matches('\'').to_string();
                         if carets == 0 || !names.contains(&tok) {
@@ -165,6 +201,13 @@ pub fn run_case(bin: &Path, case: &Case, dir: &Path) -> Result<Vec<(String, Stri
             }
         }
         i += 1;
+    }
+    if let Some(name) = &case.dup_state {
+        let cnt = seen.iter().filter(|(w, t)| w == "duplicate start state" && t == name).count();
+        if cnt != 2 {
+            findings.push(("nimbleparse-report-incomplete".to_string(), format!("start state {name:?} is declared twice; the report underlines it {cnt} times; stderr {:?}", err)));
+        }
+        return Ok(findings);
     }
     for (what, names) in [("missing from lexer", &case.missing_from_lexer), ("missing from parser", &case.missing_from_parser)] {
         // the second block is only printed when the program gets that far (it exits after it)
